@@ -38,7 +38,7 @@ def gen_tree(r, depth, ctr, pfail=0.35):
     n = Node()
     ctr[0] += 1
     n.sid = ctr[0]
-    n.kind = 'leaf' if depth == 0 else r.choice(['leaf', 'nest', 'chain', 'alt', 'or', 'switch', 'chain', 'nest', 'guard', 'altd', 'not'])
+    n.kind = 'leaf' if depth == 0 else r.choice(['leaf', 'nest', 'chain', 'alt', 'or', 'switch', 'chain', 'nest', 'guard', 'altd', 'not', 'and'])
     n.kids, n.vals, n.ok = [], [], True
     if n.kind == 'leaf':
         x = r.random()
@@ -88,7 +88,7 @@ def ir_coq(ir):
         return '(Guard %s %s %s)' % (cnat(ir[1]), cbool(ir[2]), ir_coq(ir[3]))
     if k == 'not':
         return '(NotS %s %s)' % (cnat(ir[1]), ir_coq(ir[2]))
-    name = {'nest': 'Nest', 'chain': 'Chain', 'alt': 'Alt', 'or': 'OrS', 'altd': 'AltD'}[k]
+    name = {'nest': 'Nest', 'chain': 'Chain', 'alt': 'Alt', 'or': 'OrS', 'altd': 'AltD', 'and': 'AndS'}[k]
     return '(%s %s %s)' % (name, cnat(ir[1]), clist(ir_coq(x) for x in ir[2]))
 
 
@@ -118,6 +118,8 @@ def realise(ir, reg):
             sp = tuple(subs)
         elif k == 'alt':
             sp = glom.Coalesce(*subs, skip=SKIPPED)
+        elif k == 'and':
+            sp = glom.And(*subs)               # every child on the same target, the first failure propagates, the last child's value
         elif k == 'altd':
             # recovers: when every alternative failed or was skipped, the factory's value is the result
             sp = glom.Coalesce(*subs, skip=SKIPPED, default_factory=mk_default(ir[1], reg))
@@ -594,6 +596,9 @@ def corpus():
         {'kind': 'trace', 'tree': ['chain', 1, [['not', 2, ['leaf', 3, False]], ['leaf', 4, False]]]},
         {'kind': 'trace', 'tree': ['alt', 1, [['not', 2, ['leaf', 3, True]], ['leaf', 4, False]]]},
         {'kind': 'trace', 'tree': ['guard', 1, False, ['not', 2, ['chain', 3, [['leaf', 4, True], ['leaf', 5, False]]]]]},
+        {'kind': 'trace', 'tree': ['chain', 1, [['and', 2, [['leaf', 3, True], ['leaf', 4, False], ['leaf', 5, False]]], ['leaf', 6, True]]]},
+        {'kind': 'trace', 'tree': ['chain', 1, [['and', 2, [['leaf', 3, True], ['leaf', 4, True]]], ['leaf', 5, False]]]},
+        {'kind': 'trace', 'tree': ['alt', 1, [['and', 2, [['alt', 3, [['leaf', 4, False], ['leaf', 5, True]]], ['leaf', 6, False]]], ['leaf', 7, False]]]},
     ]
     out += [{'kind': 'message', 'i': i} for i in range(N_MESSAGE)]
     return out
